@@ -366,6 +366,14 @@ func init() {
 					}
 					n++
 					ok := DominatedByExt(in, CmpCond(token.NEQ, IsLoadOf(re), isNilConst))
+					if !ok {
+						// teardown: the terminal error is installed right before (unregisterStream): the read side ends here
+						for _, a := range c.storesIn(fn, re) {
+							if _, isK := a.Val.(*ssa.Const); !isK && InstrDominates(a.Instr, in) {
+								ok = true
+							}
+						}
+					}
 					c.Check(ok, ks.key("deadline-survives-successful-read@"+c.P.FuncName(fn)), c.Pos(in), "cancelled only after the read side ended with an error", "the read-deadline timer is cancelled although no read error is latched: a later blocking Read is not woken at the deadline ("+c.describeConds(in)+")")
 				})
 			}
